@@ -102,7 +102,14 @@ static std::string check_words(const KV &c) {
         if (m == n) { m = n == 2 ? (adp_max_shares() >= 3 ? 3 : 2) : 2; }
         if (m == n) return "";   // only two shares configured: no conversion exists
         at = "x" + num(n) + "_from_x" + num(m) + " (tape " + tape_name(tk) + "): ";
-        adp_w_load(m, w.p(), a.data());
+        if (size & 1) {
+            // recycled storage: w held a word with the maximum number of shares before; the m-share word arrives
+            // through randomize(dest != src), which writes m share slots only.  The slots beyond m are not part of it.
+            Word tmp;
+            adp_w_load(adp_max_shares(), w.p(), b.data());
+            adp_w_load(m, tmp.p(), a.data());
+            adp_w_randomize(m, w.p(), tmp.p());
+        } else adp_w_load(m, w.p(), a.data());
         if (tonum(c, "alias")) { adp_w_from(n, m, w.p(), w.p()); adp_w_store(n, out + 8, w.p()); }
         else { adp_w_from(n, m, w2.p(), w.p()); adp_w_store(n, out + 8, w2.p()); }
         want = a; break; }
@@ -125,6 +132,7 @@ static rc::Gen<KV> gen_perm() {
 static bool classify_perm(const KV &c, std::vector<std::string> &tags) {
     static const char *MD[4] = {"permute", "permute-twice-preserve", "randomize", "convert"};
     tags.push_back(std::string("mode=") + MD[tonum(c, "mode")]);
+    if (tonum(c, "fr2") & 1) tags.push_back("recycled-storage(stale upper shares)");
     tags.push_back("shares=" + num(shares_for(tonum(c, "n"))));
     tags.push_back(std::string("tape=") + tape_name((int)tonum(c, "tape")));
     if (tonum(c, "mode") <= 1) tags.push_back("first_round=" + tostr(c, "fr1"));
@@ -144,7 +152,20 @@ static std::string check_perm(const KV &c) {
     ref::State r;
     memcpy(r.b, st.data(), 40);
     std::string at = "x" + num(n) + " (tape " + tape_name(tk) + "): ";
-    adp_s_from_x1(n, s.p(), st.data());
+    // recycled storage (odd fr2): the object held a state with the maximum number of shares and another value before;
+    // the state under test arrives through xK_copy_from_xK, which writes K share slots per word only
+    bool recycled = (fr2 & 1) != 0;
+    auto put = [&](int k, MState &dst) {
+        if (!recycled) { adp_s_from_x1(k, dst.p(), st.data()); return; }
+        Bytes other(40);
+        for (int i = 0; i < 40; ++i) other[i] = (uint8_t)(pr[i % 24] ^ (0x3C + i));
+        MState tmp;
+        adp_s_from_x1(adp_max_shares(), dst.p(), other.data());
+        adp_s_from_x1(k, tmp.p(), st.data());
+        adp_s_copy(k, k, dst.p(), tmp.p());
+        adp_s_free(tmp.p());
+    };
+    put(n, s);
     if (mode <= 1) {
         adp_s_randomize(n, s.p());     // shares independent of the value
         adp_s_permute(n, s.p(), (uint8_t)fr1, preserve);
@@ -160,7 +181,7 @@ static std::string check_perm(const KV &c) {
         if (memcmp(out, st.data(), 40) != 0) return at + "state value changed by randomize";
         if (tk == 5) for (int wv = 0; wv < 5; ++wv) for (int i = 0; i < n; ++i) if (adp_share(adp_s_word(s.p(), wv), i) == before[wv][i]) return at + "share " + num(i) + " of word " + num(wv) + " unchanged by state randomize with a random tape";
     } else {
-        adp_s_from_x1(m, s.p(), st.data());
+        put(m, s);
         adp_s_copy(n, m, s2.p(), s.p());
         adp_s_to_x1(n, out, s2.p());
         if (memcmp(out, st.data(), 40) != 0) return "x" + num(n) + "_copy_from_x" + num(m) + " (tape " + tape_name(tk) + ") changed the state value";
